@@ -175,13 +175,13 @@ def run(C, R):
             nret += 1
             pv = var(E, path, I(NODE + ('prev',)))
             nx = var(E, path, I(NODE + ('next',)))
-            if path.ret == ('const', 0):
+            if const_of(E, path.facts, path.ret) == 0:
                 nnon += 1
                 nothead = _eq_ptr(E, path.facts, I(SELF + ('head',)), NODE)
                 report('C20.R4', fn, path, pv == 'None' and nothead == 0 and not writes(path),
                        'non-member (prev == None and head != node): false, no write')
                 continue
-            ok = path.ret == ('const', 1)
+            ok = const_of(E, path.facts, path.ret) == 1
             if pv == 'None':
                 ok = ok and fin(path, SELF + ('head',)) == I(NODE + ('next',))
             elif pv == 'Some':
@@ -608,7 +608,7 @@ def extra_schemas(R, E, F, one, report, fin, cfg):
         if path.exit != 'return':
             continue
         hv = var(E, path, I(SELF + ('head',)))
-        ok = not writes(path) and ((hv == 'None' and path.ret == ('const', 1)) or (hv == 'Some' and path.ret == ('const', 0)))
+        ok = not writes(path) and ((hv == 'None' and const_of(E, path.facts, path.ret) == 1) or (hv == 'Some' and const_of(E, path.facts, path.ret) == 0))
         report('C20.R2', fn, path, ok, 'is_empty() == head.is_none(), no write')
     # is_root == parent is None
     fn = one('HeapNode::<T>::is_root')
@@ -616,7 +616,7 @@ def extra_schemas(R, E, F, one, report, fin, cfg):
         if path.exit != 'return':
             continue
         pv = var(E, path, I(SELF + ('parent',)))
-        ok = not writes(path) and ((pv == 'None' and path.ret == ('const', 1)) or (pv == 'Some' and path.ret == ('const', 0)))
+        ok = not writes(path) and ((pv == 'None' and const_of(E, path.facts, path.ret) == 1) or (pv == 'Some' and const_of(E, path.facts, path.ret) == 0))
         report('C20.R2', fn, path, ok, 'is_root() == parent.is_none(), no write')
     # safe_lesser defuses its bomb on the returning path
     fn = one('intrusive_pairing_heap::safe_lesser')
